@@ -156,6 +156,12 @@ func (p *c03) Gen(seed uint64, i int, tier string) (any, bool) {
 		for k := 0; k < 1+r.Intn(3); k++ {
 			sc.Server.Rules = append(sc.Server.Rules, refsmtpd.Rule{Verb: sim.Pick(r, verbs), Nth: 1 + r.Intn(nm+1), Action: sim.Pick(r, c03Replies)})
 		}
+		if i%8 == 3 {
+			// the end-of-data of one message is acknowledged with a 2yz reply other than 250: the
+			// server has taken the message
+			sc.Server.Rules = append(sc.Server.Rules, refsmtpd.Rule{Verb: "EOD", Nth: 1 + i/8%(nm+1),
+				Action: refsmtpd.Action{Code: []int{251, 252, 200, 299, 220}[i/8%5], Text: "message taken"}})
+		}
 	}
 	sc.Conn.SegMode = r.Intn(3)
 	sc.Conn.MaxSeg = 1 + r.Intn(200)
